@@ -277,6 +277,21 @@ def enumerated(seed, quick):
                                     noise_deformation=nd, error_rate=rate,
                                     code=domain.code_case(cls, size), errors='weight12',
                                     n_errors=8 if quick else 40, rseed=seed * 1000 + i))
+    # syndromes with 255 ... 257 and 512 defects in one sector on lattices
+    # large enough to have them
+    for dec, cls, size in (('MatchingDecoder', 'Toric2DCode', (16, 16)),
+                           ('MatchingDecoder', 'Toric2DCode', (16, 17)),
+                           ('MatchingDecoder', 'Planar2DCode', (17, 17)),
+                           ('MatchingDecoder', 'RotatedPlanar2DCode', (23, 23)),
+                           ('BeliefPropagationOSDDecoder', 'Toric2DCode', (16, 16))) + (
+            () if quick else (('MatchingDecoder', 'Toric2DCode', (23, 23)),
+                              ('UnionFindDecoder', 'Toric2DCode', (16, 16)))):
+        i += 1
+        out.append(dict(base, decoder=dec, dparams={'osd_order': 0, 'max_bp_iter': 10}
+                        if dec == 'BeliefPropagationOSDDecoder' else {},
+                        code=domain.code_case(cls, size), errors='syndrome_weights',
+                        syndrome_weights=[254, 256, 512] if quick else [254, 255, 256, 257, 258, 512],
+                        rseed=seed * 1000 + i))
     # BP-OSD with the options the command line writes into every input file
     # (generate-input: max_bp_iter 1000, osd_order 100), each in an
     # interpreter of its own
